@@ -44,6 +44,7 @@ type c11Op struct {
 	Sig   hotstuff.QuorumSignature
 	Msg   []byte
 	Batch map[hotstuff.ID][]byte
+	Parts []hotstuff.QuorumSignature // Kind "combine": the authority under test combines these itself, then verifies the result for Msg / Batch
 }
 
 func safeVerify(a *cert.Authority, op *c11Op) (err error, pan any) {
@@ -52,6 +53,16 @@ func safeVerify(a *cert.Authority, op *c11Op) (err error, pan any) {
 			pan = e
 		}
 	}()
+	if op.Kind == "combine" {
+		comb, err := a.Combine(op.Parts...)
+		if err != nil {
+			return err, nil
+		}
+		if op.Batch != nil {
+			return a.BatchVerify(comb, op.Batch), nil
+		}
+		return a.Verify(comb, op.Msg), nil
+	}
 	if op.Kind == "batch" {
 		return a.BatchVerify(op.Sig, op.Batch), nil
 	}
@@ -97,7 +108,32 @@ func c11Ops(w *World, d dualAuth, rng *vbase.Rng, length int, capacity uint) []c
 		return ps
 	}
 	for len(ops) < length {
-		switch rng.Intn(14) {
+		switch rng.Intn(15) {
+		case 14: // the authority under test combines signatures it has verified one by one; they are over DIFFERENT messages
+			// (timeout messages of different replicas, votes for different blocks), and the combination is then verified for one of them
+			if n >= 2 {
+				ids := pickIDs(rng.Range(2, min(n, 4)))
+				var parts []hotstuff.QuorumSignature
+				var pmsgs [][]byte
+				batch := map[hotstuff.ID][]byte{}
+				for k, id := range ids {
+					msg := append([]byte(fmt.Sprintf("part-%d-", k)), rng.Bytes(rng.Range(1, 6))...)
+					if rng.Chance(1, 4) && k > 0 {
+						msg = pmsgs[0] // sometimes the same message: then the combination is valid for it
+					}
+					sg, err := w.M(id).Auth.Sign(msg)
+					if err != nil {
+						panic(err)
+					}
+					parts = append(parts, sg)
+					pmsgs = append(pmsgs, msg)
+					batch[id] = msg
+					ops = append(ops, c11Op{Kind: "verify", Class: "honest", Sig: sg, Msg: msg})
+				}
+				ops = append(ops, c11Op{Kind: "combine", Class: "combine-verified-parts-then-verify-for-last-message", Parts: parts, Msg: pmsgs[len(pmsgs)-1]})
+				ops = append(ops, c11Op{Kind: "combine", Class: "combine-verified-parts-then-verify-for-first-message", Parts: parts, Msg: pmsgs[0]})
+				ops = append(ops, c11Op{Kind: "combine", Class: "combine-verified-parts-then-batch-verify", Parts: parts, Batch: batch})
+			}
 		case 13: // real signature objects combined by the real Combine, then looked at again: the inputs, the result, and the
 			// first input's signature bytes relabelled with all signers (one signature presented as the combination)
 			if n >= 2 {
@@ -311,7 +347,7 @@ func c11Ops(w *World, d dualAuth, rng *vbase.Rng, length int, capacity uint) []c
 
 func c11Diff(p vbase.Params, r *vbase.Result) {
 	r.Rule = "two authorities over the same keys and the same scheme object, one with core.WithCache(c), c in {1,2,3,5,8,100}, one without; identical sequences of verify / batch-verify operations " +
-		"(honest, combined by the real Combine with the inputs re-verified and the first input relabelled as the combination, replayed unchanged, replayed with altered message / batch (message changed, re-keyed, entry added/removed, same concatenation, messages re-cut across six plausible entry framings) / signer labels / bit field, own Sign results, " +
+		"(honest, combined by the authority under test from parts it verified one by one - over different messages - and verified for one of them or as a batch, combined by the real Combine with the inputs re-verified and the first input relabelled as the combination, replayed unchanged, replayed with altered message / batch (message changed, re-keyed, entry added/removed, same concatenation, messages re-cut across six plausible entry framings) / signer labels / bit field, own Sign results, " +
 		"filler traffic forcing eviction); oracle: the uncached verdict (nil / non-nil) on every operation; non-trivial: replay whose uncached verdict is invalid; distinct: (scheme,capacity,class,uncached verdict,position class)"
 	caps := []uint{1, 2, 3, 5, 8, 100}
 	seqs := p.N(240, 20000)
@@ -329,14 +365,14 @@ func c11Diff(p vbase.Params, r *vbase.Result) {
 		ops := c11Ops(w, d, rng, length, capacity)
 		for k := range ops {
 			op := &ops[k]
-			if op.Sig == nil {
+			if op.Sig == nil && op.Kind != "combine" {
 				continue
 			}
 			e1, p1 := safeVerify(d.plain, op)
 			e2, p2 := safeVerify(d.cached, op)
 			r.Obs("operations", 1)
 			invalid := e1 != nil
-			r.Eval(invalid && op.Class != "honest" && op.Class != "filler", fmt.Sprintf("%s/%d/%s/%s/%v/%s/%x/%v", scheme, capacity, op.Kind, op.Class, invalid, partsStr(op.Sig), op.Msg, len(op.Batch)))
+			r.Eval(invalid && op.Class != "honest" && op.Class != "filler", fmt.Sprintf("%s/%d/%s/%s/%v/%s/%x/%v/%d", scheme, capacity, op.Kind, op.Class, invalid, partsStr(op.Sig), op.Msg, len(op.Batch), len(op.Parts)))
 			if invalid {
 				r.Obs("uncached_invalid", 1)
 			} else {
@@ -388,7 +424,7 @@ func c11Parallel(p vbase.Params, r *vbase.Result) {
 		ops := c11Ops(w, d, rng, length, capacity)
 		want := make([]bool, len(ops))
 		for k := range ops {
-			if ops[k].Sig == nil {
+			if ops[k].Sig == nil && ops[k].Kind != "combine" {
 				continue
 			}
 			e, pn := safeVerify(d.plain, &ops[k])
@@ -410,7 +446,7 @@ func c11Parallel(p vbase.Params, r *vbase.Result) {
 			go func(perm []int, ops []c11Op) {
 				defer wg.Done()
 				for _, k := range perm {
-					if ops[k].Sig == nil {
+					if ops[k].Sig == nil && ops[k].Kind != "combine" {
 						continue
 					}
 					e, pn := safeVerify(d.cached, &ops[k])
